@@ -101,6 +101,24 @@ func c07AfterLastToken() []string {
 	add("leaf l { type decimal64; }")
 	add("leaf l { type identityref; }")
 	add("leaf l { type leafref; }")
+	// revision dates: every field at and beyond its limits (the dates are compared with each other once the
+	// module is complete), and texts that only look like dates
+	for _, y := range []string{"0000", "1900", "2020", "2024", "9999"} {
+		for _, mo := range []string{"00", "01", "02", "12", "13", "19", "20", "31", "99"} {
+			for _, d := range []string{"00", "01", "28", "29", "30", "31", "32", "99"} {
+				add("revision " + y + "-" + mo + "-" + d + ";")
+			}
+		}
+	}
+	for _, d := range []string{"2020-1-01", "20200101", "2020-01-01x", "-2020-01-01", "2020-01-01 ", "2020-01", "2020--01-01", "٢٠٢٠-٠١-٠١", "2020-0a-01", "2020-01-0b", "+020-01-01", "2020-+1-01", "2020-01--1", ""} {
+		add("revision '" + d + "';")
+		add("revision 2021-01-01; revision '" + d + "';")
+	}
+	add("revision 2020-01-01; revision 2021-01-01;")
+	add("revision 2021-01-01; revision 2021-01-01;")
+	add("revision 2021-01-01; revision 2020-13-01;")
+	add("revision 2021-13-01; revision 2020-12-01;")
+	add("import other { prefix o; revision-date 2020-13-41; }")
 	// pattern arguments at and beyond the edge of what the regular expression compiler takes (the parser
 	// wraps the pattern before compiling it: a text may be fine bare and broken wrapped, or the reverse)
 	for _, pt := range []string{`\Qa.b`, `\Qa.b\E`, `a\`, `\`, `[`, `[a`, `(`, `)`, `a)(b`, `)(`, `(?P<n>`, `(?i`, `(?`, `x{2,1}`, `a{1001}`, `\pX`, `\p{`, `*`, `+?`, `a**`,
